@@ -136,6 +136,32 @@ pub fn check_unary(rope: &Rope<'_>, s: &str) -> Result<(), String> {
       }
     }
   }
+  // ropes recombined from slices of this very rope (they share its backing text): equal length,
+  // usually different content -- equality must be decided on the bytes, not on where pieces start
+  for k in 0..=s.len() {
+    let m = s.len() - k;
+    if !s.is_char_boundary(k) || !s.is_char_boundary(m) {
+      continue;
+    }
+    if let (Some(a), Some(b), Some(c)) = (rope.get_byte_slice(0..k), rope.get_byte_slice(0..m), rope.get_byte_slice(k..)) {
+      // head(k) + head(len-k)
+      let mut x = a.clone();
+      x.append(b);
+      let xs = format!("{}{}", &s[..k], &s[..m]);
+      ck!(format!("recombined head({k})+head({m}) == rope"), x == *rope, xs == s, s);
+      ck!(format!("rope == recombined head({k})+head({m})"), *rope == x, xs == s, s);
+      ck!(format!("recombined head({k})+head({m}) to_string"), x.to_string(), xs.clone(), s);
+      // rotation: tail(k) + head(k)
+      let mut y = c;
+      y.append(a);
+      let ys = format!("{}{}", &s[k..], &s[..k]);
+      ck!(format!("rotation at {k} == rope"), y == *rope, ys == s, s);
+      ck!(format!("rope starts_with rotation at {k}"), rope.starts_with(&y), s.starts_with(&ys), s);
+    }
+    if s.len() > 48 && k > 6 && k + 6 < s.len() && k % 61 != 0 {
+      continue;
+    }
+  }
   // lines of slices are slices of lines: a derived rope is again a faithful rope
   if let Some(sl) = rope.get_byte_slice(0..floor_cb(s, s.len() / 2)) {
     let ss = &s[0..floor_cb(s, s.len() / 2)];
